@@ -164,7 +164,7 @@ add('C14', 'proof', 'Lean 4 theorems: naive decoder (min weight, corrects total 
     'total distance <= its weight (generic T-join lemma over any multigraph with a metric, with a boundary variant for the '
     'virtual plaquettes), so with any minimum-weight perfect matching the recovery XOR error is a stabilizer product whenever '
     '|X-support|, |Z-support| <= t = (min(R,C)-1)/2 — C02, C07, C08, C15 facts discharged; the only remaining hypothesis is '
-    'that the matching handed back is of minimum weight (networkx, see C13) — 36 theorems. Tied to the code by exact '
+    'that the matching handed back is of minimum weight (networkx, see C13); the exact matcher meets that contract, and the recovery is the same for every iteration order of the returned set of mates (Props/C14/MatesOrder.lean) — 72 theorems. Tied to the code by exact '
     'comparison of the naive decoder and by sweeping every error with |X|,|Z| <= t on planar and toric 2x2..4x5 (exhaustive) '
     'and samples beyond through the real decoders, verdict confirmed by the Lean driver and a span certificate.',
     TB + 'Minimality of the networkx matching is a hypothesis (tested against a verified optimum in C13).')
@@ -192,7 +192,9 @@ add('C10', 'proof', 'Lean 4 theorems: coset-probability specification (partition
     'stabilizer tensors + qubit tensors = sum over the stabilizer group; dimension-2 and dimension-4 legs) gives exactValue '
     '= cosetProb, and with C11 the modelled sweeps the decoders use (by column, by row, right-to-left, the colour decoder\'s '
     'bra/ket split, the RMPS shared partial contraction with its column bookkeeping) return exactly the coset probabilities, '
-    'for ALL sizes — 71 theorems. NOT proved: that the float / mpf arithmetic of the real contraction stays close to the exact '
+    'for ALL sizes; the planar RMPS decoder\'s diagonal logicals lie in the cosets of the code\'s logicals (all R, C, both diagonals), and '
+    'the property\'s agreement clause is a corollary (planar MPS = planar RMPS in modes c / r / a and by column = by row; the two '
+    'rotated-planar decoders agree) — 91 theorems. NOT proved: that the float / mpf arithmetic of the real contraction stays close to the exact '
     'value (bounded per run: every coset probability within 1e-11 relative, arg-max class where the gap > 1e-9, incl. strong '
     'noise and the zero / single-defect syndromes). Tie: every tensor '
     'of the real create_tn equals the model tensor exactly; recorded contraction bookkeeping; exact spec value from the real '
